@@ -305,7 +305,7 @@ Proof.
     repeat dmatch H; try (inv H; exact Ia).
     unfold drop_off_trip in H. repeat dmatch H. inv H. eapply Inv_disp_ext; [| |exact Ia]; reflexivity.
   - eapply move_disp; eauto.
-  - apply Free; [intros rid [rt E0]; discriminate|]. destruct (charge_ledger env _ _ _ _ _ H) as (? & ? & ? & ? & ? & _ & _ & _ & _ & _ & L). cbv zeta in L. intuition.
+  - apply Free; [intros rid [rt E0]; discriminate|]. unfold charge_unless_full in H. repeat dmatch H; try (inv H; reflexivity); destruct (charge_ledger env _ _ _ _ _ H) as (? & ? & ? & ? & ? & _ & _ & _ & _ & _ & L); cbv zeta in L; intuition.
   - apply Free; [intros rid [rt E0]; discriminate|]. repeat dmatch H. eapply modv_requests; eauto.
   - eapply move_disp; eauto.
   - inv H. exact I.
